@@ -211,6 +211,12 @@ func UseSites() []UseSite {
 		{Tag: "own Helper()", Stmt: "Helper()", Kind: UKNone, TONL: true, Core: true, OnlyImporter: true},
 		{Tag: "own Mock{}", Stmt: "_ = Mock{}", Kind: UKNone, TONL: true, OnlyImporter: true},
 		{Tag: "own var Mock", Stmt: "var $v Mock; _ = $v", Kind: UKNone, TONL: true, OnlyImporter: true},
+		// a second imported package with unannotated items of the same names
+		{Tag: "namesake e.Helper()", Stmt: "e.Helper()", Kind: UKNone, TONL: true, Core: true, OnlyImporter: true},
+		{Tag: "namesake e.Mock{}", Stmt: "_ = e.Mock{}", Kind: UKNone, TONL: true, OnlyImporter: true},
+		{Tag: "namesake var e.Mock2", Stmt: "var $v e.Mock2; _ = $v", Kind: UKNone, TONL: true, OnlyImporter: true},
+		{Tag: "namesake e.S{}.Reset()", Stmt: "e.S{}.Reset()", Kind: UKNone, TONL: true, OnlyImporter: true},
+		{Tag: "namesake e.HelperArg(e.Mock{})", Stmt: "e.HelperArg(e.Mock{})", Kind: UKNone, TONL: true, OnlyImporter: true},
 		// reference kinds the @testonly statement does not list (judged for @packageonly only)
 		{Tag: "value Helper", Stmt: "_ = {q}Helper", Kind: UKFunc},
 		{Tag: "mvalue s.Reset", Stmt: "_ = s.Reset", Kind: UKMethod},
@@ -484,7 +490,9 @@ func RenderUse(s *UseSpec) *UseRendered {
 			if s.Spell == SpThirdAlias {
 				w.add(`import "ex.com/m/c"`)
 			}
+			w.add(`import "ex.com/m/e"`)
 			w.add("")
+			w.add("var _ = e.Helper")
 			w.add("var _ = " + q + "PlainF")
 			if s.Spell == SpThirdAlias {
 				w.add("var _ = c.Keep")
@@ -615,6 +623,23 @@ func RenderUse(s *UseSpec) *UseRendered {
 
 	p := &prog.Program{}
 	if !inD {
+		// a second imported package declaring UNANNOTATED items with the same names as d's annotated ones
+		p.Pkgs = append(p.Pkgs, prog.Pkg{Path: "ex.com/m/e", Files: []prog.File{{Name: "e.go", Src: `package e
+
+func Helper() int { return 0 }
+
+func HelperArg(x any) int { return 0 }
+
+type Mock struct{ A int }
+
+type Mock2 struct{ A int }
+
+type S struct{ K int }
+
+func (s S) Reset() {}
+
+func (s *S) ResetP() {}
+`}}})
 		wd := &lineWriter{}
 		wd.add("package d")
 		wd.add("")
